@@ -102,6 +102,12 @@ CHECKS["C15"] = dict(
   text="2-4 threads run generated programs over open/close/sense/listen/exchange/size queries/connect(rdwr|llcp|card)/__exit__; the proxy device checks at the entry of every driver method that the frontend lock is owned by the calling thread, that no other thread is inside a driver call and that the device was not closed, then lets virtual time pass so contention is observable. All 17 syntactic self.device.<m> call sites of ContactlessFrontend are exercised (reported by the sites leg).",
   note=TRUST + "Synchronisation-point granularity; the per-call-site clause is measured dynamically, not proven syntactically.")
 
+CHECKS["C18"] = dict(
+  category="exploration",
+  technique="property-based testing (Hypothesis) of callback/return-value contracts: generated option dictionaries x simulated environments x terminate schedules, one recorded time line of callbacks and driver calls checked against the docstring contract",
+  text="connect(): generated rdwr/llcp/card options with callbacks returning true/false/None/other types run against a scripted device (tag that stays n exchanges, remote reader, host faults) and a second nfcpy stack as peer; invariants: on-startup before any discovery, discover -> connect -> release order, on-release exactly once per true on-connect with the same object, return value None/False/object/released value as documented, nothing new after terminate() is true, no exception. sense(): target lists mixing supported/unsupported/invalid targets, first-in-order result, field off after failure, no stale target in exchange(), direction follows the last target.",
+  note=TRUST + "Environment simulated (vlib/simdev.py + scripted extensions). Known findings C18-systemexit-from-connect and C18-no-on-release-after-device-error excluded by class; behaviour after an on-release that returns false is undocumented and only labelled.")
+
 PENDING_REASON = "not claimed yet: its generated-input check (DESIGN.md section 3) is still under construction in this session; nothing is asserted about it"
 
 def main():
